@@ -1,5 +1,5 @@
 """C06 — track lifecycle: counts, completion, removal, stop-when-done, limits, names."""
-from .. import sched_gen, sched_suite
+from .. import common, sched_gen, sched_suite
 
 PROPERTY = "C06"
 LEAN_MODULE = "IsobarV.Props.C06Runs"
@@ -242,8 +242,73 @@ def run_keyword_cases(ctx):
                                            "first_failing_clause": "stops on exactly the tick at which the last track is gone and never when stop-when-done is off"})
 
 
+def stop_tick_with_companions(ctx):
+    """'A stop-when-done timeline stops on exactly the tick at which the last track and pending start are gone': automations
+    and LFOs are neither tracks nor pending starts — a ramp still in progress or an LFO still oscillating does not postpone the
+    stop, and does not bring it forward (implementation-only oracle: the same session without the companions)."""
+    common.ensure_repo_on_path()
+    import isobar as iso
+    from isobar.io.output import OutputDevice
+    r = ctx.rng
+
+    class Rec(OutputDevice):
+        def __init__(self):
+            super().__init__()
+            self.calls = []
+
+        def note_on(self, note=60, velocity=64, channel=0):
+            self.calls.append(("on", note))
+
+        def note_off(self, note=60, channel=0):
+            self.calls.append(("off", note))
+
+    for i in range(ctx.scale(60, 2500)):
+        tpb = r.choice([2, 4, 8, 24])
+        tracks = [([r.randint(40, 80) for _ in range(r.randint(1, 4))], r.choice([0.5, 1, 1, 2]), r.choice([0, 0, 1, 2]))
+                  for _ in range(r.randint(1, 3))]
+        comp = r.choice(["automation-ramp", "automation-ramp", "automation-idle", "lfo", "automation+lfo"])
+        ramp = r.choice([0.5, 3, 5, 50])
+
+        def session(with_companions):
+            dev = Rec()
+            tl = iso.Timeline(120, output_device=dev, clock_source=iso.DummyClock(ticks_per_beat=tpb))
+            tl.stop_when_done = True
+            for notes, dur, delay in tracks:
+                tl.schedule({"note": iso.PSequence(list(notes), 1), "duration": dur}, delay=delay)
+            if with_companions:
+                if comp.startswith("automation"):
+                    a = tl.automation(range=(0, 1), initial=0.0)
+                    if comp != "automation-idle":
+                        a.move_to(1.0, duration=ramp)
+                if comp.endswith("lfo"):
+                    tl.lfo({"shape": "sine", "frequency": 1.0, "min": 0.2, "max": 0.8})
+            stop = None
+            for k in range(40 * tpb):
+                try:
+                    tl.tick()
+                except StopIteration:
+                    stop = k
+                    break
+            return stop, list(dev.calls)
+        try:
+            plain = session(False)
+            got = session(True)
+        except Exception as ex:  # noqa: BLE001
+            plain, got = None, "raised %s" % type(ex).__name__
+        ctx.case(("stop-companions", tpb, repr(tracks), comp, ramp), nontrivial=True, validated=False,
+                 sample={"stop_with_companions": {"tpb": tpb, "tracks": repr(tracks), "companions": comp, "ramp_beats": ramp}} if i < 3 else None)
+        ctx.count("stop-companions:" + comp)
+        if plain != got:
+            ctx.violation("C06:stop-tick:companions",
+                          "stop-when-done timeline (%d ticks per beat, tracks %s) with %s: stops on tick %s, without the companions on tick %s"
+                          % (tpb, tracks, comp, got[0] if isinstance(got, tuple) else got, plain[0] if plain else None),
+                          {"suite": "c06-companions", "tpb": tpb, "tracks": repr(tracks), "companions": comp, "ramp_beats": ramp,
+                           "first_failing_clause": "stops on exactly the tick at which the last track and pending start are gone"})
+
+
 def run(ctx):
     muted_interpolated_cases(ctx)
+    stop_tick_with_companions(ctx)
     run_keyword_cases(ctx)
     sched_suite.run_suite(ctx, PROF, ctx.scale(2500, 150000), "c06", [limit_oracle], nontrivial, signature_of)
 
